@@ -20,7 +20,12 @@ Record case := mkCase {
   c_ast_rules : option (list N);   (* Rule items of AST::from(source) *)
   c_utf8 : option (list N * (N * option N) * option (N * N));
                                (* invalid UTF-8: the bytes, std's (valid_up_to, error_len), the span of the E032 label *)
-  c_re_outside : nat           (* labels of `invalid regular expression` errors lying outside every REGEXP token *)
+  c_re_outside : nat;          (* labels of `invalid regular expression` errors lying outside every REGEXP token *)
+  c_linecol : list (bool * bool);  (* per label: its (line, column) equals the one computed from the span start with
+                                      lines ending at \n only / at \n, \r\n and lone \r *)
+  c_head_ok : bool;            (* line/column of the diagnostic = its first label's = the `-->` of the rendered text *)
+  c_decl_spans : list (N * N); (* spans of the RULE_DECL nodes, parallel to c_declared *)
+  c_err_labels : list (N * N)  (* label spans of the errors *)
 }.
 
 Definition mem (x : N) (l : list N) : bool := existsb (N.eqb x) l.
@@ -58,7 +63,9 @@ Definition check_case (c : case) : bool :=
       forallb (fun n => mem n (c_built c) || mem n (c_ignored c)) ar &&
       forallb (fun n => mem n (c_declared c)) ar &&
       Nat.leb (length ar) (length (c_declared c))
-  end.
+  end &&
+  (* the report builder counts lines at \n only (lone \r is not a line end; \r\n counts once) *)
+  forallb fst (c_linecol c) && c_head_ok c.
 
 (* S: the property on the implementation's answer *)
 Definition spec_case (c : case) : bool :=
@@ -67,6 +74,11 @@ Definition spec_case (c : case) : bool :=
   forallb (fun l => let '(a, b, x, y) := l in (a <=? b) && (b <=? c_len c) && x && y) (c_labels c) &&
   (* the location of a regexp error lies inside the regexp it is about *)
   Nat.eqb (c_re_outside c) 0 &&
-  (* a source is never accepted while one of its rules is dropped *)
-  (negb (Nat.eqb (c_nerr c) 0) ||
-   forallb (fun n => mem n (c_built c) || mem n (c_ignored c)) (c_declared c)).
+  (* a reported (line, column) designates the start of the span *)
+  forallb (fun p => fst p || snd p) (c_linecol c) &&
+  (* per rule: built, or ignored with a reason, or covered by an error located in the rule *)
+  forallb (fun ds =>
+     let '(n, (lo, hi)) := ds in
+     mem n (c_built c) || mem n (c_ignored c) ||
+     existsb (fun l => (fst l <=? hi) && (lo <=? snd l)) (c_err_labels c))
+    (combine (c_declared c) (c_decl_spans c)).
